@@ -45,8 +45,6 @@ class Prop(BaseProp):
             e = impl.le.combine_expressions([e, e.args[-1] if e.args else e, e], rng_op(case), licensing=lic)
         t0 = impl.tree_c(e)
         text = e.render()
-        if str(e) != text:
-            return Verdict('diverge', case, 'str() differs from render()', impl=[str(e), text])
         tags = ['via=' + via]
         ip = impl.parse_c(lic, text)
         if ip != [T('ok'), t0]:
@@ -67,6 +65,8 @@ class Prop(BaseProp):
             return Verdict('diverge', case, 'render', impl=text, model=want_d, tags=tags)
         if rd != want_r:
             return Verdict('diverge', case, 'render_as_readable', impl=rd, model=want_r, tags=tags)
+        if str(e) != text:
+            return Verdict('diverge', case, 'str() differs from render()', impl=[str(e), text], tags=tags)
         return Verdict('ok', case, impl=text, nontrivial=t0[0] in ('and', 'or'), key=[table, t0], tags=tags)
 
     def run(self, drv, rng, tier, index, nworkers, scale):
